@@ -264,6 +264,31 @@ pub fn c12() -> i32 {
         let out = explore(&scns, &cfg, &judge);
         rep.absorb("c: two silences of every length 1..timeout+3 rounds separated by a short gap (alternation of NetworkInterrupted / NetworkResumed, Disconnected on time)", out, &props, json!({"k": 0, "scenarios": n}));
     }
+    // ---- (g) every up/down pattern of a link, round by round
+    {
+        let mut scns = Vec::new();
+        let depth = if t { 16 } else { 12 };
+        for w in [2usize, 0] {
+            for both in [false, true] {
+                let mut s = base_scn("c12-link-patterns", "1+1", w, 0, false, Pred::RepeatLast, Program::Changing, 1);
+                for p in s.peers.iter_mut() {
+                    p.notify_ms = 50;
+                    p.timeout_ms = 150;
+                }
+                let (a, b) = (s.peers[0].addr, s.peers[1].addr);
+                s.fault = packet_faults(2, depth, 0, Vec::new(), 0);
+                s.fault.link_rounds = if both { vec![vec![(b, a), (a, b)]] } else { vec![vec![(b, a)]] };
+                s.name = format!("{} both-directions={both}", s.name);
+                s.horizon = 2 + depth;
+                s.probe = 30;
+                s.checks = CK_C02;
+                scns.push(s);
+            }
+        }
+        let cfg = ExploreCfg { k: Some(depth as usize), wall: Duration::from_secs(if t { 900 } else { 40 }), ..Default::default() };
+        let out = explore(&scns, &cfg, &judge);
+        rep.absorb("g: every up/down pattern of the link (one direction, or both together), round by round, with notify 50 ms / timeout 150 ms: interruption, resume and disconnect against the timer model, grammar on every stream", out, &props, json!({"k": "all subsets of the window", "window_rounds": depth, "configs": scns.len()}));
+    }
     // ---- (d) poll-only sessions
     {
         let mut scns = Vec::new();
